@@ -22,8 +22,9 @@ Bnd(w) == { Zero(w), FromNat(1, w), FromNat(2, w), FromNat(3, w), FromNat(7, w),
 Few(w) == { Zero(w), FromNat(1, w), FromNat(7, w), Ones(w), MinSigned(w), MaxSigned(w) }
            \cup (IF Thorough THEN { FromNat(3, w), Sub(Ones(w), FromNat(1, w)), Shl(FromNat(1, w), w \div 2),
                                     Mul(FromNat(193, w), Shl(FromNat(1, w), w - 8)) } ELSE {})
+TreeOperands(w) == { FromNat(1, w), FromNat(3, w), Ones(w), MinSigned(w) } \cup (IF Thorough THEN { MaxSigned(w), FromNat(w - 1, w) } ELSE {})
 Operands(ty, o) == LET w == Width(ty)
-                   IN IF o \in {"/", "%"} /\ w >= 64 THEN Few(w)
+                   IN IF Mode = "tree" THEN TreeOperands(w) ELSE IF o \in {"/", "%"} /\ w >= 64 THEN Few(w)
                       ELSE IF w = 128 /\ ~Thorough /\ Mode = "bin" THEN Few(w) \cup {FromNat(2, w), FromNat(127, w), FromNat(128, w)}
                       ELSE Bnd(w)
 \* bitwise operators and shifts on usize are an unconstrained cell (docs silent, code rejects): not enumerated
@@ -32,27 +33,33 @@ BinOps(t) == {"+", "-", "*", "/", "%"} \cup (IF t \in BitTypes THEN {"&", "|", "
 CmpOps == {"==", "!=", "<", ">", "<=", ">="}
 UnOps(t) == IF t \in SignedTypes THEN {"-"} ELSE IF t \in BitTypes THEN {"!"} ELSE {}
 
-VARIABLES t, op, a, b, lvl, res      \* res: the cell's value, computed once by the action that completes the cell
-vars == <<t, op, a, b, lvl, res>>
-Init == t = "" /\ op = "" /\ a = <<>> /\ b = <<>> /\ lvl = 0 /\ res = UB
-Ops(ty) == CASE Mode = "bin" -> BinOps(ty) [] Mode = "cmp" -> CmpOps [] Mode = "un" -> UnOps(ty)
+VARIABLES t, op, a, b, lvl, res, op2, c      \* res: the cell's value, computed once by the action that completes the cell
+vars == <<t, op, a, b, lvl, res, op2, c>>
+Init == t = "" /\ op = "" /\ a = <<>> /\ b = <<>> /\ lvl = 0 /\ res = UB /\ op2 = "" /\ c = <<>>
+Ops(ty) == CASE Mode \in {"bin", "tree"} -> BinOps(ty) [] Mode = "cmp" -> CmpOps [] Mode = "un" -> UnOps(ty)
              [] Mode = "cast" -> (IntTypes \cap Types) \ {ty}
-PickT == lvl = 0 /\ t' \in Types /\ lvl' = 1 /\ UNCHANGED <<op, a, b, res>>
-PickOp == lvl = 1 /\ op' \in Ops(t) /\ lvl' = 2 /\ UNCHANGED <<t, a, b, res>>
+PickT == lvl = 0 /\ t' \in Types /\ lvl' = 1 /\ UNCHANGED <<op, a, b, res, op2, c>>
+PickOp == lvl = 1 /\ op' \in Ops(t) /\ lvl' = 2 /\ UNCHANGED <<t, a, b, res, op2, c>>
 Cell(x, y) == CASE Mode = "bin" -> BinOp(op, Val(t, x), Val(t, y))
                 [] Mode = "cmp" -> Compare(op, Val(t, x), Val(t, y))
                 [] Mode = "un" -> UnOp(op, Val(t, x))
                 [] Mode = "cast" -> CastTo(op, Val(t, x))
-PickA == /\ lvl = 2 /\ a' \in Operands(t, op) /\ UNCHANGED <<t, op, b>>
+PickA == /\ lvl = 2 /\ a' \in Operands(t, op) /\ UNCHANGED <<t, op, b, op2, c>>
          /\ IF Mode \in {"un", "cast"} THEN lvl' = 4 /\ res' = Cell(a', <<>>) ELSE lvl' = 3 /\ res' = res
-PickB == lvl = 3 /\ b' \in Operands(t, op) /\ lvl' = 4 /\ res' = Cell(a, b') /\ UNCHANGED <<t, op, a>>
-Next == PickT \/ PickOp \/ PickA \/ PickB
+PickB == /\ lvl = 3 /\ b' \in Operands(t, op) /\ UNCHANGED <<t, op, a>>
+         /\ IF Mode = "tree" THEN lvl' = 5 /\ res' = res /\ UNCHANGED <<op2, c>>
+            ELSE lvl' = 4 /\ res' = Cell(a, b') /\ UNCHANGED <<op2, c>>
+\* tree mode: (a op b) op2 c
+PickC == /\ lvl = 5 /\ op2' \in BinOps(t) /\ c' \in TreeOperands(Width(t)) /\ lvl' = 4
+         /\ res' = BinOp(op2', BinOp(op, Val(t, a), Val(t, b)), Val(t, c'))
+         /\ UNCHANGED <<t, op, a, b>>
+Next == PickT \/ PickOp \/ PickA \/ PickB \/ PickC
 Spec == Init /\ [][Next]_vars
 
 Result == res
 \* sanity of the semantics itself: results stay inside their type
 WellTyped == lvl = 4 => (IsUB(Result) \/ (Len(Result.v) = Limbs(Width(Result.t)) /\ \A i \in 1..Len(Result.v) : Result.v[i] \in 0..255))
 EmitCase == lvl = 4 =>
-    PrintT(<<"CASE", ToJson([mode |-> Mode, t |-> t, op |-> op, a |-> a, b |-> b,
+    PrintT(<<"CASE", ToJson([mode |-> Mode, t |-> t, op |-> op, a |-> a, b |-> b, op2 |-> op2, c |-> c,
                              ub |-> IsUB(Result), rt |-> Result.t, r |-> Result.v])>>)
 =============================================================================
